@@ -78,8 +78,7 @@ ASSUMPTIONS = ['leaf operator classes without an executable model are opaque: th
                'wraps without copying: equivalent as long as no body writes its input, which the '
                'ndarray-input oracle tests; range membership / castability are tags of the model '
                '(XArg, OArg, Leaf.junk), tied to Operator.__call__ by the dispatch stream only',
-               'ComponentProjection with a list index has no model branch (zoo only); the leaf '
-               'stream reaches only the size < THRESHOLD_SMALL branch of _lincomb_impl '
+               'the leaf stream reaches only the size < THRESHOLD_SMALL branch of _lincomb_impl '
                '(lincombSmall); ImagPart / ComplexModulus are modelled on real spaces only; the '
                'in-place bodies of PowerOperator / MultiplyOperator on a FIELD domain with a '
                'field range are unreachable through __call__ (TypeError first) and not modelled']
@@ -1952,6 +1951,9 @@ def build_pso(case, data):
         coo = op.ops
     elif kind == 'proj':
         op, coo = odl.ComponentProjection(odl.ProductSpace(space, nc), idx), None
+    elif kind == 'projl':
+        # round 4: LIST index (model compProjListO / compProjListI)
+        op, coo = odl.ComponentProjection(odl.ProductSpace(space, nc), list(case['idxs'])), None
     else:
         op, coo = odl.ComponentProjectionAdjoint(odl.ProductSpace(space, m), idx), None
     toks = {(i, j): t for i, j, t in case['blocks']}
@@ -2032,6 +2034,8 @@ def eval_pso(ctx, case, lines, pend):
         ';'.join(bl(v) for v in ys), bits(data['lam']), bits(data['sigma']), bits(data['gamma']),
         bits(data['radius']), bits(EPS_CCL1), bl(data['g']), bl(data['sig']), bl(data['lo']),
         bl(data['up']))
+    if kind == 'projl':
+        base += ' idxs=' + ','.join(str(int(t)) for t in case['idxs'])
     for mode in modes:
         lines.append('pso mode={} {}'.format(mode, base))
         pend.append((case, shape, mode, res[mode], xa[mode]))
@@ -2059,7 +2063,7 @@ def run_pso(ctx, count):
     import random
     lines, pend = [], []
     # a FIXED set first (constant seed: every class x mode stratum occurs), then the seeded ones
-    plan = [random.Random(20260927)] * 80 + [ctx.rng] * count
+    plan = [random.Random(20260927)] * 100 + [ctx.rng] * count
     for rng in plan:
         n = rng.choice([1, 2, 3])
         space = odl.rn(n)
@@ -2069,8 +2073,9 @@ def run_pso(ctx, count):
                     sig=np.array([rng.choice([0.5, 1.0, 2.0]) for _ in range(n)]),
                     lo=np.array([rng.choice([-1.0, -0.5, 0.0]) for _ in range(n)]),
                     up=np.array([rng.choice([0.5, 1.0, 2.0]) for _ in range(n)]))
-        kind = rng.choice(['pso', 'pso', 'bcast', 'red', 'diag', 'diag', 'proj', 'projadj'])
+        kind = rng.choice(['pso', 'pso', 'bcast', 'red', 'diag', 'diag', 'proj', 'projadj', 'projl'])
         idx = 0
+        idxs = []
 
         def block():
             toks, _mk, sh = rand_tree(rng, rng.choice([0, 1, 2]), n, data)
@@ -2092,14 +2097,19 @@ def run_pso(ctx, count):
         elif kind == 'proj':
             m, nc = 1, rng.choice([1, 2, 3])
             idx = rng.randrange(nc)
+        elif kind == 'projl':
+            nc = rng.choice([1, 2, 3, 4])
+            m = rng.choice([1, 2, 3])
+            idxs = [rng.randrange(nc) for _ in range(m)]      # repeats allowed
         else:
             m, nc = rng.choice([1, 2, 3]), 1
             idx = rng.randrange(m)
         shape = '{}[{}]'.format(kind, ';'.join('{}{}:{}'.format(i, j, blocks[(i, j)][1])
-                                               for i, j in sorted(blocks)) or idx)
+                                               for i, j in sorted(blocks)) or
+                                 (','.join(map(str, idxs)) if kind == 'projl' else idx))
         pre = rng.choice(['garbage', 'nan', 'inf'])
         case = {'kind': 'pso', 'class': kind, 'shape': shape[:300], 'n': n, 'm': m, 'nc': nc,
-                'idx': idx, 'prefill': pre, 'data': data_to_json(data),
+                'idx': idx, 'idxs': idxs, 'prefill': pre, 'data': data_to_json(data),
                 'blocks': [[i, j, blocks[(i, j)][0]] for i, j in sorted(blocks)],
                 'x': [[rng.randint(-16, 16) / 8.0 for _ in range(n)] for _ in range(nc)],
                 'y': [[{'garbage': 777.25 + i, 'nan': float('nan'), 'inf': float('inf')}[pre]] * n
@@ -2844,7 +2854,7 @@ COVERAGE = None
 
 EXPECTED_BRANCHES = (
     ['tree/' + t for t in TREE_BRANCHES] +
-    ['pso/{}/{}'.format(k, m) for k in ('pso', 'bcast', 'red', 'proj', 'projadj')
+    ['pso/{}/{}'.format(k, m) for k in ('pso', 'bcast', 'red', 'proj', 'projadj', 'projl')
      for m in ('oop', 'ip')] + ['pso/diag/' + m for m in ('oop', 'ip', 'alias')] +
     ['dispatch/oop/' + o for o in ('ok', 'err:domain', 'err:range', 'err:type', 'err:value')] +
     ['dispatch/ip/' + o for o in ('ok', 'err:domain', 'err:range', 'err:value')] +
